@@ -401,6 +401,65 @@ pub fn c14(tier: Tier, seed: u64) -> Verdict {
         });
         merged.merge(m);
     }
+    // (2d) limb-structured values: hi * 2^64 + lo and q * 10^19 + r (what a 128-bit formatter splits a value into), with
+    // hi, lo, q, r from the values special to word arithmetic: 0, 1, 2^k -1/+0/+1, 10^j -1/+0/+1 (10^19 = 0x8AC7230489E80000
+    // and its neighbourhood above all), the word maximum, fillers
+    if merged.violation.is_none() {
+        let mut limbs: Vec<u64> = vec![0, 1, 2, 9, 10, u64::MAX, u64::MAX - 1, 0x8AC7_2304_0000_0000, 0x8AC7_2304_89E7_FFFF, 0x8AC7_2303_FFFF_FFFF, 0x1_0000_0000, 0xFFFF_FFFF, 0x0DE0_B6B3_A764_0000];
+        for k in [8u32, 16, 31, 32, 33, 53, 62, 63] {
+            limbs.extend([(1u64 << k) - 1, 1 << k, (1 << k) + 1]);
+        }
+        for j in [4u32, 8, 9, 10, 16, 17, 18, 19] {
+            let p = 10u64.pow(j);
+            limbs.extend([p - 1, p, p + 1, p - 2, p.wrapping_mul(9) / 10]);
+        }
+        limbs.sort_unstable();
+        limbs.dedup();
+        let n = limbs.len();
+        let m = run_parallel(|shard| {
+            let mut m = Merged::new();
+            begin();
+            let mut idx = 0usize;
+            'o: for a in 0..n {
+                for b in 0..n {
+                    idx += 1;
+                    if idx % SHARDS != shard {
+                        continue;
+                    }
+                    let (x, y) = (limbs[a] as u128, limbs[b] as u128);
+                    let p19 = 10u128.pow(19);
+                    for mag in [(x << 64) | y, x.wrapping_mul(p19).wrapping_add(y), x.wrapping_mul(p19).wrapping_add(y % p19), (x << 64).wrapping_sub(y), (x << 32) | (y & 0xFFFF_FFFF)] {
+                        for t in [6usize, 7, 8, 9, 10, 11, 18, 19, 20, 21, 22, 23] {
+                            for neg in [false, true] {
+                                // values that do not fit the type are skipped by check_int_value
+                                match check_int_value(t, neg, mag) {
+                                    None => {}
+                                    Some(Ok(())) => {
+                                        m.evaluations += 1;
+                                        if t % 12 >= 8 {
+                                            m.distinct.insert(digest(&(t, neg, mag)));
+                                        }
+                                    }
+                                    Some(Err(e)) => {
+                                        m.violation = Some(int_violation(t, neg, mag, e));
+                                        break 'o;
+                                    }
+                                }
+                            }
+                        }
+                    }
+                }
+                if m.evaluations % 4096 < 64 {
+                    end();
+                    begin();
+                }
+            }
+            end();
+            *m.counters.entry("limb_pairs".into()).or_insert(0) += (n * n / SHARDS) as u64;
+            m
+        });
+        merged.merge(m);
+    }
     // (3) thorough: exhaustive 32-bit types
     if merged.violation.is_none() && tier == Tier::Thorough {
         let m = run_parallel(|shard| {
